@@ -7,7 +7,7 @@ Local Open Scope R_scope.
 Lemma tie_jrot2c_p00 p q x y : jrot2c_p00_pc (OO:=ROps) p q x y -> jc_spec p q x y (jrot2c_p00 (OO:=ROps) p q x y).
 Proof.
   unfold jc_spec. autounfold with gen; ops_R. cbv beta iota zeta delta [nth firstn skipn].
-  set (sq := 1 / 2 * (p - q)) in *. fold (pnorm sq x (- y)). intros [Hp Hq].
+  set (sq := 1 / 2 * (p - q)) in *. rewrite ?(hyp_pnorm sq x (- y)). intros [Hp Hq].
   assert (Ep : p = q + 2 * sq) by (unfold sq; field). clearbody sq. subst p.
   pose proof (pnorm_sq sq x (- y)) as Sp. pose proof (pnorm_ge sq x (- y)) as Pp.
   assert (PP : 0 < pnorm sq x (- y)) by lra. assert (Hd : 0 < pnorm sq x (- y) + sq) by lra.
